@@ -58,7 +58,7 @@ def run_case(case):
     try:
         time.sleep(0.15)
         step_no = 0
-        if rx is not RX and not s.alive() and s.p.proc.returncode == 2 and "error:" in (s.stderr() + bytes(s.p.out).decode(errors="replace")):
+        if (rx is not RX or case.get("scale") is not None) and not s.alive() and s.p.proc.returncode == 2 and "error:" in (s.stderr() + bytes(s.p.out).decode(errors="replace")):
             return fails  # the value was refused with a usage error: allowed
 
         def check(after):
@@ -235,6 +235,15 @@ def burst_cases():
     for k in NAV:
         steps += [["feed", 2, 1], ["key", 2], ["key", 7], ["key", 0], ["wait_expiry"], ["paste", [2, k]]]
     out.append(dict(base, expiry=True, steps=steps))
+    # every listed --scale value (negative, zero, NaN, tiny, huge) with every way of zooming, on the
+    # map and the coverage tab, with and without aircraft
+    for sc in [-1.0, -0.12, 0.0, "nan", "inf", 1e-9, 1e9]:
+        zoom = [["key", 11], ["key", 12], ["mouse", 3, 30, 15], ["mouse", 4, 30, 15], ["paste", [11, 11, 12]], ["key", 10]]
+        out.append(dict(base, scale=sc, steps=zoom + [["key", 1]] + zoom + [["feed", 3, 1], ["key", 0]] + zoom + [["key", 1]] + zoom + [["key", 2], ["mouse", 3, 30, 15], ["key", 3], ["mouse", 4, 30, 15]]))
+        out.append(dict(base, scale=sc, flags=[0], steps=[["mouse", 0, 2, 4], ["mouse", 1, 2, 4], ["mouse", 0, 2, 9], ["mouse", 1, 2, 9], ["mouse", 0, 2, 14], ["mouse", 0, 2, 19], ["feed", 2, 1], ["mouse", 0, 2, 4], ["mouse", 0, 2, 9]]))
+    # positioned aircraft expire while each tab is shown, then every tab is visited
+    for tab in range(5):
+        out.append(dict(base, expiry=True, steps=[["feed", 3, 1], ["feed", 3, 1], ["key", tab], ["wait_expiry"], ["wait_expiry"]] + [["key", t] for t in (3, 2, 0, 1, 4, 3)] + [["feed", 2, 1], ["key", 3], ["wait_expiry"], ["wait_expiry"], ["key", 2], ["key", 3]]))
     for i in range(3, len(RXS)):
         out.append(dict(base, rx=i, steps=[["feed", 3, 1], ["feed_tab", 3, 1, 3], ["feed_tab", 2, 1, 0], ["key", 2], ["key", 7], ["key", 10]]))
     return out
@@ -274,7 +283,7 @@ def worker(args):
         "quit": st.integers(0, 1),
         "no_server": st.sampled_from([False, False, False, False, False, True]),
         "locations": st.one_of(st.none(), st.just(["(home,52.1,4.2)"]), st.just(["(a,51.0,3.0)", "(b,53.5,6.5)"])),
-        "scale": st.one_of(st.none(), st.sampled_from([0.12, 0.01, 5.0, 1e-9, 1e9, 0.0, -1.0])),
+        "scale": st.one_of(st.none(), st.sampled_from([0.12, 0.01, 5.0, 1e-9, 1e9, 0.0, -1.0, -0.12, "nan", "inf"])),
         "rx": st.integers(0, len(RXS) - 1),
     })
     cli = st.fixed_dictionaries({"cli": st.just(True), "opt": st.sampled_from(sorted(BAD_VALUES) + ["--locations", "--locations"]), "val": st.integers(0, 19), "extra_location": st.booleans()})
